@@ -964,6 +964,32 @@ impl ASN1Value {
         ty: &ASN1Type,
         type_name: Option<&String>,
     ) -> Result<(), GrammarError> {
+        // `{ 5 }` and `{ 5 6 }` are lexically OBJECT IDENTIFIER values, `{ 5 }` is also a list
+        // with one element: the governing type decides which one is meant
+        if let ASN1Type::SequenceOf(_) | ASN1Type::SetOf(_) = ty {
+            let oid = match self {
+                ASN1Value::ObjectIdentifier(oid) => Some(&*oid),
+                ASN1Value::LinkedNestedValue { value, .. } => match &**value {
+                    ASN1Value::ObjectIdentifier(oid) => Some(oid),
+                    _ => None,
+                },
+                _ => None,
+            };
+            let single_element = oid.and_then(|oid| match oid.0.as_slice() {
+                [ObjectIdentifierArc {
+                    name: None,
+                    number: Some(number),
+                }] => i128::try_from(*number).ok(),
+                _ => None,
+            });
+            if let Some(number) = single_element {
+                let list = ASN1Value::SequenceOrSet(vec![(None, Box::new(ASN1Value::Integer(number)))]);
+                match self {
+                    ASN1Value::LinkedNestedValue { value, .. } => **value = list,
+                    _ => *self = list,
+                }
+            }
+        }
         #[allow(clippy::useless_asref)] // false positive
         match (ty, self.as_mut()) {
             (
